@@ -22,6 +22,9 @@ func init() {
 		Explanation: "R-MAPORDER",
 		Rules: []func(*Ctx){
 			func(c *Ctx) { c.ruleMapOrder("R-MAPORDER", c.M, c.scopeAll()) },
+			func(c *Ctx) {
+				c.ruleEffect("R-EFFECT", c.entryData("Unserialize", "Validate", "Serialize", "ValidateCompatibility", "UnserializeType", "ValidateType", "SerializeType", "ReflectedType", "TypeID"), false, true)
+			},
 		},
 	})
 	register(&PropSpec{
